@@ -390,6 +390,11 @@ def check(F, rep, tier):
         if dyn: rep.bad("R15.10", "context-dynamic-keys", "the template context is serialised with run-time keys at its top level (%s): a custom variable named like a built-in one (semver, pep440, major, dirty, ...) replaces it in every template" % dyn[:4], ser[0].where())
         elif fixed: rep.ok("R15.10", "the template context is a struct with a fixed set of field names (%d serialize_field calls)" % len(fixed), nontrivial_key="ctxfixed")
         else: rep.undecided("R15.10", "context-serialize-shape", "the context's Serialize impl is neither serialize_struct nor map based", ser[0].where())
+    # ---- R15.11 sanitize(..) equals the sanitiser contract: the value is sanitised as given (the rule lives with C16's wrapper rules) ----
+    import c16 as _c16
+    _c16.template_value_rule(F, rep, "R15.11")
+    # ---- R15.12 the context a template sees is built from the object of that render: no state kept between renders in the template module ----
+    core.borrow(F, rep, "c14", "C14", "R15.12", ("R14.5:mutable-static:cli::utils::template", "R14.5:thread:cli::utils::template"), "no static / thread-local state in the template module (a cached context shows the values of an earlier render)")
     return core.finish(rep, explanation=EXPL, assumptions=ASSUME, trusted=TRUST)
 
 EXPL = ("Sibling agreement between the template context and the formatters, decided on the MIR of ZervTemplateContext::from_zerv: {{ semver }} / {{ pep440 }} are to_string of the same From<Zerv> conversions of the unmodified object that "
